@@ -2709,6 +2709,14 @@ def register_misc19(E):
     M(r'^<(std::vec::)?Vec<u8> as (std::io::)?Write>::write_fmt$',m_vec_write_fmt); M(r'^<(std::vec::)?Vec<u8> as (std::io::)?Write>::write_all$',m_vec_write_all)
     M(r'^<(std::vec::)?Vec<u8> as (std::io::)?Write>::write$',m_vec_write); M(r'^<(std::vec::)?Vec<u8> as (std::io::)?Write>::flush$',lambda e,run,a,f: ok(UNIT))
     M(r'^(HashMap|BTreeMap)::get_key_value$',m_map_get_key_value)
+    # a generic writer `W: Write` bound to a byte vector by the harness (run.ghost['tysubst'])
+    def gen_w(fn):
+        def m(e,run,a,f):
+            if not isinstance(deref(a[0]),VecO): raise Unsupported('generic io::Write on '+repr(deref(a[0]))[:40])
+            return fn(e,run,a,f)
+        return m
+    M(r'^<W as (std::io::)?Write>::write_all$',gen_w(m_vec_write_all)); M(r'^<W as (std::io::)?Write>::write_fmt$',gen_w(m_vec_write_fmt))
+    M(r'^<W as (std::io::)?Write>::write$',gen_w(m_vec_write)); M(r'^<W as (std::io::)?Write>::flush$',lambda e,run,a,f: ok(UNIT))
     D=r'^(chrono::)?(TimeDelta|Duration)::'
     M(D+r'num_minutes$',m_delta_div(60)); M(D+r'num_hours$',m_delta_div(3600)); M(D+r'num_days$',m_delta_div(86400)); M(D+r'num_weeks$',m_delta_div(604800))
     M(D+r'num_milliseconds$',m_delta_num_millis); M(D+r'subsec_nanos$',m_delta_subsec_nanos); M(D+r'is_zero$',m_delta_is_zero)
